@@ -152,7 +152,10 @@ func depth1Shapes(rng *rand.Rand, full bool) []shape {
 	action := shape{text: "{p.n += len(text)}", desc: "action", ef: true, null: true}
 	pred := shape{text: "&{p.ok}", desc: "pred", ef: true, null: true}
 	state := shape{text: "!{p.n++}", desc: "statechange", ef: true, null: true}
-	for _, a := range L {
+	for li, a := range L {
+		if !full && li%2 == 1 && a.text != "Rc" {
+			continue // quick tier: every other leaf (the families below carry the critical shapes)
+		}
 		for _, op := range unaryNames {
 			if (op == "star" || op == "plus") && a.null {
 				continue
@@ -171,13 +174,13 @@ func depth1Shapes(rng *rand.Rand, full bool) []shape {
 	}
 	for i, a := range L {
 		for j, b := range L {
-			if !full && (i*7+j*3)%6 != 0 {
+			if !full && (i*7+j*3)%12 != 0 {
 				continue
 			}
 			out = append(out, mkSeq("seq2", a, b), mkAlt("alt2", a, b))
 		}
 	}
-	triples := 12
+	triples := 6
 	if full {
 		triples = 120
 	}
@@ -280,7 +283,7 @@ func writeSchemas(dir, tier string, seed int) ([]*SchemaFile, error) {
 	rng := rand.New(rand.NewSource(20260925))
 	full := tier == "thorough"
 	d1 := depth1Shapes(rng, full)
-	n2 := 40
+	n2 := 24
 	if full {
 		n2 = 900
 	}
@@ -387,6 +390,9 @@ func writeSchemas(dir, tier string, seed int) ([]*SchemaFile, error) {
 	for _, t := range switchFamily() {
 		hz = append(hz, shape{text: t, desc: "switch family"})
 	}
+	for _, t := range backtrackFamily() {
+		hz = append(hz, shape{text: t, desc: "backtrack family"})
+	}
 	for i := 0; i < len(hz); i += perFile {
 		j := i + perFile
 		if j > len(hz) {
@@ -396,5 +402,54 @@ func writeSchemas(dir, tier string, seed int) ([]*SchemaFile, error) {
 			return nil, err
 		}
 	}
+	// mutually recursive rules (choices of three and more alternatives that reach each other, one of them
+	// beginning with a reference back to a rule still being analysed by the -switch optimiser)
+	rec := filepath.Join(dir, prefix+"-recursive.peg")
+	if err := os.WriteFile(rec, []byte(recursiveGrammar), 0o644); err != nil {
+		return nil, err
+	}
+	files = append(files, &SchemaFile{Name: prefix + "-recursive", Path: rec})
 	return files, nil
+}
+
+const recursiveGrammar = `package main
+
+type S Peg {
+ n int
+ ok bool
+}
+
+Start <- (Value / Expr / List) (Value / Expr / List)? !.
+Value <- '[' Items ']' / Num / Str
+Items <- Row (';' Row)*
+Row <- Value '=' Value / '-' / [a-z]+
+Num <- <[0-9]+> {p.n += len(text)}
+Str <- '"' (!'"' .)* '"'
+Expr <- Term ('+' Term)*
+Term <- Factor ('*' Factor)*
+Factor <- '(' Expr ')' / Num / [a-z]+ / '-' Factor
+List <- '{' Elems? '}'
+Elems <- Elem (',' Elem)*
+Elem <- List / Num / Str / [a-z]+ / '<' Elem '>'
+`
+
+// backtrackFamily: operands that can match a prefix and then fail (so that position AND token index must be
+// restored), under every backtracking operator and in the contexts that follow it, with and without
+// tokens (rule calls, captures, actions) inside the part that is abandoned.
+func backtrackFamily() []string {
+	partial := []string{"'a' 'b'", "Rc 'b'", "<'a'> 'b'", "'a' {p.n += len(text)} 'b'", "('a' / 'r') 'b'", "'a'+ 'b'"}
+	var out []string
+	for _, q := range partial {
+		out = append(out,
+			"&("+q+") / 'a' 'c'",
+			"&("+q+") 'a' 'b' / Rc 'c'",
+			"!("+q+") 'a' 'c'",
+			"!("+q+") Rc 'c' / 'a' 'b'",
+			"("+q+")? 'a' 'c'",
+			"("+q+")* 'a' 'c'",
+			q+" / 'a' 'c' / Rc 'c'",
+			"("+q+" / 'a') 'c' / 'a' 'd'",
+			"<("+q+")?> 'a' 'c'")
+	}
+	return out
 }
